@@ -59,6 +59,10 @@ def holds(rel, x, y):
     return xe >= ys and ye >= xs
 
 
+import collections
+_PairNT = collections.namedtuple("_PairNT", "start end")
+
+
 class Prop(SeqProp):
     pid = "C10"
     model = "spanset"
@@ -238,7 +242,20 @@ class Prop(SeqProp):
                     out.append("ok " + show(env[st[1]]))
                 elif o == "has":
                     r = (num(st[2]), num(st[3], True)) in env[st[1]]
-                    out.append(f"ret {1 if r else 0}")
+                    # a span is a pair: one that arrives as a list (json) or as a named tuple is the same span
+                    alt = ([num(st[2]), num(st[3], True)], _PairNT(num(st[2]), num(st[3], True)))[len(out) % 2]
+                    try:
+                        r2 = alt in env[st[1]]
+                        d2 = env[st[1]].isdisjoint([alt])
+                    except BaseException as e2:  # noqa
+                        if isinstance(e2, (KeyboardInterrupt, SystemExit)):
+                            raise
+                        r2 = d2 = f"raised {err_name(e2)}"
+                    if r2 is not r or d2 is not (not r):
+                        out.append(f"ret {1 if r else 0} span-form-mismatch: the span given as {type(alt).__name__}: `in` gives "
+                                   f"{r2!r}, isdisjoint([span]) gives {d2!r}")
+                    else:
+                        out.append(f"ret {1 if r else 0}")
                 else:
                     out.append("bad-op")
             except BaseException as e:  # noqa
